@@ -61,6 +61,12 @@ pub fn blocks(thorough: bool) -> Vec<Block> {
         b.push(Block::new(u_kind_triples(), neutral.clone(), d32));
         b.push(Block::new(u_runs(), neutral.clone(), d32));
     }
+    if thorough {
+        // the thorough space is a superset of the quick one: every quick block first, then the deeper ones
+        let mut all = blocks(false);
+        all.extend(b);
+        return all;
+    }
     b
 }
 
